@@ -164,10 +164,33 @@ theorem subrun_shallow_replays_ultimate (f : Facts) (b : Bool) (hc : f.cse = non
   unfold checkCache subrunAllowed
   simp [hc, hu]
 
+/-- In a no-cache run nothing is served from the backend: whatever scope the task or the call asked for, whatever the
+validity option, the allowed results and the backend content, a lookup is answered by the same-execution (CSE) query or
+not at all. -/
+theorem no_cache_run_only_cse (scope : Scope) (cv : CheckValid) (al : Allowed) (f : Facts) :
+    (checkCache (runScope false scope) cv al f).1 = .cse ∨ (checkCache (runScope false scope) cv al f).1 = .miss := by
+  unfold runScope checkCache
+  simp only [Bool.false_eq_true, if_false]
+  split
+  · simp
+  · split
+    · simp
+    · simp
+
+/-- ... in particular a `subrun` whose call node was recorded by an earlier execution starts its sub-scheduler again
+(in a cached run the same lookup replays it: `subrun_shallow_replays_ultimate`) -/
+theorem no_cache_run_restarts_subrun (scope : Scope) (cv : CheckValid) (f : Facts) (hc : f.cse = none) :
+    checkCache (runScope false scope) cv subrunAllowed f = (.miss, none) := by
+  unfold runScope checkCache subrunAllowed
+  simp [hc]
+
 /-! Non-vacuity. -/
 open RedunModel.EvalLib
 
 theorem covers_lib (c : Ctx) : Covers lib.config c := by intro k hk; exact absurd rfl hk
+
+example : checkCache (runScope true .backend) .shallow subrunAllowed ⟨none, some false, none⟩ = (.ultimate, some false) := by decide
+example : checkCache (runScope false .backend) .shallow subrunAllowed ⟨none, some false, none⟩ = (.miss, none) := by decide
 
 example : evalFuel lib 30 Ctx.empty (.subrun (tcall "ev.twice" [.int 3]) false) = some (.ok (.int 5)) := by rfl
 example : evalFuel lib 30 Ctx.empty (.subrun (tcall "ev.fail_after" [.int 1, .str "K"]) false)
